@@ -17,6 +17,7 @@ import (
 	"sort"
 	"strconv"
 	"strings"
+	"sync"
 	"sync/atomic"
 	"time"
 
@@ -553,13 +554,24 @@ func doCheck(id, tier, only string, verbose bool, workers, seed int, noNative bo
 
 	// ---- solver diff on a sample of discharged queries ----
 	diffChecked, diffBad := 0, 0
-	for _, q := range dischargedSample {
-		st, _ := crossCheck(q)
-		if st == "sat" {
-			diffBad++
+	{
+		verdicts := make([]string, len(dischargedSample))
+		var dwg sync.WaitGroup
+		for i, q := range dischargedSample {
+			dwg.Add(1)
+			go func(i int, q []*Term) {
+				defer dwg.Done()
+				verdicts[i], _ = crossCheck(q)
+			}(i, q)
 		}
-		if st == "sat" || st == "unsat" {
-			diffChecked++
+		dwg.Wait()
+		for _, st := range verdicts {
+			if st == "sat" {
+				diffBad++
+			}
+			if st == "sat" || st == "unsat" {
+				diffChecked++
+			}
 		}
 	}
 
